@@ -346,14 +346,14 @@ SeqBlock(st, h, ops) ==
   IN [st |-> Close(st, h, a.m, InStateIds(o, a.res)), res |-> a.res]
 
 (* the world: the chain before the block under test (four blocks in every world);   *)
-(* zero-arity constant definitions, so that TLC evaluates each block once           *)
-B1 == SeqBlock(GenesisState, 1, Script[1])
-B2 == SeqBlock(B1.st, 2, Script[2])
-B3 == SeqBlock(B2.st, 3, Script[3])
-B4 == SeqBlock(B3.st, 4, Script[4])
-Prior == B4.st
-ScriptStates == <<B1.st, B2.st, B3.st, B4.st>>
-ScriptRes == <<B1.res, B2.res, B3.res, B4.res>>
+(* one LET chain, so that TLC evaluates each block once per use of Chain            *)
+Chain ==
+  LET b1 == SeqBlock(GenesisState, 1, Script[1])
+      b2 == SeqBlock(b1.st, 2, Script[2])
+      b3 == SeqBlock(b2.st, 3, Script[3])
+      b4 == SeqBlock(b3.st, 4, Script[4])
+  IN [st |-> <<b1.st, b2.st, b3.st, b4.st>>, res |-> <<b1.res, b2.res, b3.res, b4.res>>]
+Prior == Chain.st[4]
 ASSUME Len(Script) = 4
 
 ----------------------------------------------------------------------------
@@ -380,10 +380,11 @@ Proj(st) == [members |-> st.members, sufh |-> st.sufh, suf_at |-> st.sufAt, suf_
 
 NoStep == [kind |-> "none"]
 
-WorldStep == [kind |-> "world", world |-> World, genesis |-> Genesis, t10 |-> T10, h |-> H,
+WorldStep == LET chain == Chain IN
+             [kind |-> "world", world |-> World, genesis |-> Genesis, t10 |-> T10, h |-> H,
                      script |-> [k \in DOMAIN Script |-> [ops |-> Ordered(Script[k])]],
-                     script_want |-> [k \in DOMAIN Script |-> Proj(ScriptStates[k])],
-                     script_res |-> ScriptRes,
+                     script_want |-> [k \in DOMAIN Script |-> Proj(chain.st[k])],
+                     script_res |-> chain.res,
                      genesis_want |-> Proj(GenesisState),
                      catalogue |-> Catalogue]
 
